@@ -18,6 +18,7 @@ DECIDES += (' [ABSTRACT INTERPRETATION, exact] LA3: on symbolic 3 x 3 matrices (
             'pivot permutation), matrix_inverse and matrix_determinant satisfy A x = b, A A^-1 = I and the Leibniz formula; FD2: the binomial is not truncated from a float quotient.')
 
 MODS = ('linalg', '_linalg')
+DECIDES += (' PV4: matrix_pivot, which touches entries only through abs() and comparisons, interpreted on one matrix of every weak order of the column magnitudes (n = 1..3, ties, zero columns): P is a permutation matrix, the result is P A with maximal pivots, the sign is the signature, the input is untouched.')
 
 
 def site(fi, node):
